@@ -30,9 +30,18 @@ structure StoreSt where
   order : List (String × List String) := []       -- container key "kind@parentId" ↦ ids in creation order (never shrinks)
   everSeen : List (String × String) := []         -- id ↦ "kind name created" as first observed
 
+/-- what the search family remembers: the links as the ACCEPTED operations set them (entity id ↦ target id), so that the
+    back-reference rules do not have to believe the getters `metadata()` / `link()` / `sources()` of the dump -/
+structure SearchSt where
+  md : List (String × Option String) := []        -- holder id ↦ section id set as metadata (none = removed)
+  seclink : List (String × Option String) := []   -- section id ↦ linked section id
+  srcs : List (String × List String) := []        -- holder id ↦ ids of the attached sources
+  untracked : List String := []                      -- entities whose links were changed in a way the tracker does not follow
+
 structure DState where
   axis : AxisDesc := .none
   arr : Option ArrSt := none
   store : StoreSt := {}
+  search : SearchSt := {}
 
 end Nix.Drive
